@@ -147,33 +147,42 @@ def _flag_guards(ctx, rep, body, fl, hook, phase, h, blks):
         kind, place, x = bp.def_rvalue(d)
         vals.add(x["op"].get("val") if kind == "assign" and x["k"] == "use" and x["op"]["k"] == "const" else "?")
     rep.check(vals == {"true"}, R, "flag-true-before-hooks:" + hook, ctx.where(body, h), "`%s` is true before the %s hooks run" % (name, hook), "`%s` before the hooks is %s" % (name, sorted(vals)))
-    # guard: switches on the flag after the loop; the phase's callback is reachable only through
-    # the non-zero edge
-    sites = [s for s in ctx.prog.sites(body) if A.event(s) == phase]
-    if not sites:
-        rep.bad(R, "guarded-phase-in-same-function:" + hook, ctx.where(body), "%s is not called in the function that evaluates the %s verdicts" % (phase, hook))
-        return
+    # guard: in the reducer thread's event graph, with every test of the flag taking its false
+    # edge the phase's callbacks are unreachable, with the true edge they are reachable
+    P = _pipe(ctx)
+    G = P.G
     lr = ctx.lr(body)
-    guards = []
-    for b in cfg.nodes():
-        t = body.blocks[b]["term"]
-        if t["k"] == "switch":
-            f = lr.flags.switch_flag(t)
-            if f and f[0] == fl:
-                guards.append((b, t, f[1]))
-    if not rep.floor(R, "branches on `%s`" % name, len(guards), 1, ctx.where(body)):
+    phase_nodes = [k for k, s in P.ev.get(phase, [])]
+    if not phase_nodes:
+        rep.bad(R, "guarded-phase-present:" + hook, ctx.where(body), "no %s site on the reducer thread" % phase)
         return
-    for s in sites:
-        for b, t, neg in guards:
-            zero = [bb for v, bb in t["targets"] if str(v) == "0"]
-            nonzero = t["otherwise"]
-            false_edge = nonzero if neg else (zero[0] if zero else None)
-            true_edge = (zero[0] if zero else None) if neg else nonzero
-            from_false = false_edge is not None and s.bb in cfg.reachable_from([false_edge])
-            from_true = true_edge is not None and s.bb in cfg.reachable_from([true_edge])
-            only = s.bb not in cfg.reachable_from([0], avoid=[b])
-            rep.check(from_true and not from_false and only, R, "flag-guards-phase:%s" % hook, ctx.where(body, b),
-                      "%s runs iff `%s` is still true" % (phase, name), "%s reachable with `%s` false: %s, with true: %s, bypassing the test: %s" % (phase, name, from_false, from_true, not only))
+    true_edges = []
+    false_edges = []
+    where = None
+    for k, n in G.nodes.items():
+        if n.body.path != body.path:
+            continue
+        t = n.body.blocks[n.bb]["term"]
+        if t["k"] != "switch":
+            continue
+        f = lr.flags.switch_flag(t)
+        if not f or f[0] != fl:
+            continue
+        neg = f[1]
+        zero = [bb for v, bb in t["targets"] if str(v) == "0"]
+        nonzero = t["otherwise"]
+        fe = nonzero if neg else (zero[0] if zero else nonzero)
+        te = (zero[0] if zero else nonzero) if neg else nonzero
+        false_edges.append((k, (k[0], body.path, fe)))
+        true_edges.append((k, (k[0], body.path, te)))
+        where = ctx.where(body, n.bb)
+    if not rep.floor(R, "branches on `%s`" % name, len(true_edges), 1, ctx.where(body)):
+        return
+    w_false = G.reach_corr(P.recv, avoid=P.recv, after=True, forbid_edges=true_edges)
+    w_true = G.reach_corr(P.recv, avoid=P.recv, after=True, forbid_edges=false_edges)
+    for k in phase_nodes:
+        rep.check(k not in w_false and k in w_true, R, "flag-guards-phase:%s" % hook, where,
+                  "%s runs iff `%s` is still true" % (phase, name), "%s reachable with `%s` false: %s, with true: %s" % (phase, name, k in w_false, k in w_true))
 
 
 def mw4_counter(ctx, rep):
